@@ -664,7 +664,8 @@ def _idx_agg(
     cols = [c for c in df.columns if (c, "-idx") in df.columns]
     out = _idx_extreme(df, cols, lambda x: x.groupby(keys, sort=sort, **kwargs), how)
     for c in cols:
-        out[(c, "-idx")] = df[(c, "-idx")].to_numpy()[out[(c, "-idx")].to_numpy()]
+        # (take on the array, not on its NumPy copy: keeps e.g. the str dtype of labels)
+        out[(c, "-idx")] = df[(c, "-idx")].array.take(out[(c, "-idx")].to_numpy())
     if not final:
         return out
     if out[cols].isna().any().any():
